@@ -262,6 +262,7 @@ func disjointWriters(t *testing.T, prop string) {
 		default:
 			schedule = genSchedule(t, nw)
 		}
+		coldFinal := rapid.Bool().Draw(t, "coldFinalReader")
 		uuidSeed := rapid.Uint64().Draw(t, "uuidSeed")
 		hashMod := rapid.SampledFrom([]int{1, 3, 16}).Draw(t, "hashMod")
 
@@ -295,6 +296,9 @@ func disjointWriters(t *testing.T, prop string) {
 			}
 		}
 		res, s := e.RunConcurrent(stores, progs, schedule, txh.ConcOpts{GateCommits: knownSnapshot, Strict: strict, Directed: directed, MaxTime: 15 * time.Second, Budget: 90 * time.Second})
+		if coldFinal {
+			e.EvictNodeCaches()
+		}
 		desc := fmt.Sprintf("slot=%d %s seed=%v %s strict=%v schedule=%s directed=[%s]", slot, txh.PlacementNames[placement], seed, renderProgs(progs), strict, renderSchedRLE(schedule), renderSegs(directed))
 		if s.TimedOut {
 			rec.Discard()
